@@ -231,6 +231,10 @@ def as_eseq(v, st=None):
         return VSeq(Empty(ESeq), 'E')
     if v.ty == 'none':
         return VSeq(Empty(ESeq), 'E')
+    if v.ty == 'obj' and v.a.get('view', '') == 'TexArgs' and st is not None:
+        # a TexArgs used as an iterable: iterating the list subclass yields its items (read at this point; iterating a
+        # list while it is extended by the same call - args.extend(args) - is not modelled)
+        return st.heap[v.a['ref']]['items']
     raise Unsupported('not a list of expressions: ' + v.ty)
 
 
